@@ -15,7 +15,7 @@ From Amgcl Require Import Scalar QcInst Vec Crs Kernels KernelsProofs MatOps Mat
 From Amgcl Require Import Own OwnProofs Junk JunkProofs LowLevel LowLevelProofs LowLevelT LowLevelTProofs.
 From Amgcl Require Import Aggregates Coarsen CoarsenProofs Direct DirectProofs Krylov KrylovProofs
                           Cheby ChebyProofs Inverse InverseProofs Amg AmgProofs.
-From Amgcl Require Import Tentative LowLevel2 LowLevel2Proofs LowLevel2G LowLevel2GProofs LowLevel2A LowLevel2AProofs LowLevel2I.
+From Amgcl Require Import Tentative LowLevel2 LowLevel2Proofs LowLevel2G LowLevel2GProofs LowLevel2A LowLevel2AProofs LowLevel2I LowLevel2IProofs.
 Import ListNotations.
 Local Open Scope S_scope.
 
@@ -404,6 +404,30 @@ Theorem C10_ll2_tentative (S : Scalar) (n naggr : nat) (aggr : list Z) : length 
   ll_tentative n naggr aggr = Done (minit (flat_of (tentative_prolongation (S := S) naggr aggr))).
 Proof. exact (ll_tentative_ok n naggr aggr). Qed.
 Print Assumptions C10_ll2_tentative.
+
+(* relaxation::ilu0 constructor: L / U (ptr, col, val) and D unwritten, work[c] = NULL or a pointer into
+   L->val / D / U->val, in-place removal of zeros; rows in any order, duplicates allowed.  The array
+   model throws exactly when the list model does and otherwise leaves its L, U, D (ilu0_agrees) *)
+Theorem C10_ll2_ilu0 (S : Scalar) (A : crs S) (junk : vec S) :
+  wf A = true -> ncols A <= nrows A -> has_diag A = true ->
+  ilu0_agrees A junk (ll_ilu0 (flat_of A)).
+Proof. exact (ll_ilu0_gen A junk). Qed.
+Print Assumptions C10_ll2_ilu0.
+
+Theorem C10_ll2_ilu0_safe (S : Scalar) (A : crs S) :
+  wf A = true -> ncols A <= nrows A -> has_diag A = true ->
+  let r := ll_ilu0 (flat_of A) in
+  r <> OutOfBounds /\ r <> UninitRead /\ r <> OutOfFuel.
+Proof. exact (ll_ilu0_safe A). Qed.
+Print Assumptions C10_ll2_ilu0_safe.
+
+(* without the guard: a row with no entry c >= i leaves D[i] unwritten; the constructor returns it
+   (documented precondition of ILU(0), not a finding) *)
+Theorem C10_ll2_ilu0_without_diagonal_refuted (S : Scalar) (junk : vec S) :
+  (exists st, ll_ilu0 (flat_of (mkCrs 1 [[]] : crs S)) = Done (EOk st) /\ idd st = [None]) /\
+  Ilu.ilu0 (mkCrs 1 [[]] : crs S) junk = Ilu.Ok (mkCrs 1 [[]], mkCrs 1 [[]], [vget junk 0]).
+Proof. exact (ll_ilu0_nodiag_uninit junk). Qed.
+Print Assumptions C10_ll2_ilu0_without_diagonal_refuted.
 
 (* the degenerate inputs named by the property, and inputs on which the checks must (and do) bite *)
 Definition q10 (z : Z) : QcS := qc z 1.
